@@ -555,9 +555,41 @@ func c02(p *core.Program, r *core.Report) {
 	strideRule(p, r, "reverse-whole-coordinates", []strideTarget{{"", "reverse1", "all"}, {"", "reverse2", "all"}, {"", "reverse3", "all"}})
 	// the kernels behind Reverse walk ends/endss with a running lower bound: the same chaining obligation as the
 	// measures of C09 (a part skipped without advancing the bound shifts every later part)
-	chainRule(p, r, "reverse-offset-chain", 2, func(o *types.Func) bool {
-		return o.Pkg() != nil && o.Pkg().Path() == mod && strings.HasPrefix(o.Name(), "reverse")
-	})
+	reverseClosure := map[*types.Func]bool{}
+	{
+		var work []*ssa.Function
+		for _, fn := range pkgFuncs(p, "") {
+			if fn.Name() == "Reverse" && fn.Parent() == nil {
+				work = append(work, fn)
+			}
+		}
+		seenF := map[*ssa.Function]bool{}
+		for len(work) > 0 {
+			fn := work[len(work)-1]
+			work = work[:len(work)-1]
+			if seenF[fn] || core.FnPkgPath(fn) != mod {
+				continue
+			}
+			seenF[fn] = true
+			if o, ok := topLevel(fn).Object().(*types.Func); ok {
+				reverseClosure[o] = true
+			}
+			work = append(work, fn.AnonFuncs...)
+			for _, c := range eng.Calls(fn) {
+				if g := eng.StaticCallee(c); g != nil {
+					work = append(work, g)
+				}
+				for _, a := range c.Common().Args {
+					if mc, ok := a.(*ssa.MakeClosure); ok {
+						if g, _ := mc.Fn.(*ssa.Function); g != nil {
+							work = append(work, g)
+						}
+					}
+				}
+			}
+		}
+	}
+	chainRule(p, r, "reverse-offset-chain", 2, func(o *types.Func) bool { return reverseClosure[o] })
 
 	// ---- rule 3: Swap exchanges whole values
 	const r3 = "swap-complete"
